@@ -107,13 +107,13 @@ func (e *Enc) instr(in ssa.Instruction) {
 		es := e.sortOf(el)
 		r := e.allocRef("mkslice")
 		k := e.arrKeyT(el)
-		e.set(k, store(e.get(e.st, k), r, fmt.Sprintf("((as const (Array Int %s)) %s)", es, e.w.so.zeroSort(es))))
+		e.setFresh(k, store(e.get(e.st, k), r, fmt.Sprintf("((as const (Array Int %s)) %s)", es, e.w.so.zeroSort(es))))
 		e.setVal(x, fmt.Sprintf("(mkslice %s %s)", r, n))
 	case *ssa.MakeMap:
 		mt := x.Type().Underlying().(*types.Map)
 		r := e.allocRef("mkmap")
 		k := e.mapKeyT(mt)
-		e.set(k, store(e.get(e.st, k), r, e.emptyMap(mt)))
+		e.setFresh(k, store(e.get(e.st, k), r, e.emptyMap(mt)))
 		e.setVal(x, r)
 		e.ptrNonNil[r] = true
 	case *ssa.MapUpdate:
@@ -238,12 +238,12 @@ func (e *Enc) alloc(x *ssa.Alloc) {
 		ss := e.sortOf(t)
 		for i := 0; i < st.NumFields(); i++ {
 			k := e.heapKey(ss, i)
-			e.set(k, store(e.get(e.st, k), r, e.w.so.zero(st.Field(i).Type())))
+			e.setFresh(k, store(e.get(e.st, k), r, e.w.so.zero(st.Field(i).Type())))
 		}
 		e.initGhosts(r, t)
 	} else {
 		k := e.memKey(e.sortOf(t))
-		e.set(k, store(e.get(e.st, k), r, e.w.so.zero(t)))
+		e.setFresh(k, store(e.get(e.st, k), r, e.w.so.zero(t)))
 	}
 }
 
@@ -586,7 +586,7 @@ func (e *Enc) convert(x *ssa.Convert) {
 		r := e.allocRef("bytes")
 		k := e.arrKey(sInt)
 		a := e.fresh("bytearr", "(Array Int Int)")
-		e.set(k, store(e.get(e.st, k), r, a))
+		e.setFresh(k, store(e.get(e.st, k), r, a))
 		sl := fmt.Sprintf("(mkslice %s (str.len %s))", r, v.S)
 		e.fact(eq(fmt.Sprintf("(bytesStr %s (str.len %s))", a, v.S), v.S))
 		e.setVal(x, sl)
@@ -702,7 +702,7 @@ func (e *Enc) slice(x *ssa.Slice) {
 		old := sel(e.get(e.st, k), "(sbase "+s.S+")")
 		a := e.fresh("resl", "(Array Int "+es+")")
 		e.assert(fmt.Sprintf("(forall ((i Int)) (! (=> (and (<= 0 i) (< i (- %s %s))) (= (select %s i) (select %s (+ %s i)))) :pattern ((select %s i))))", hi, lo, a, old, lo, a))
-		e.set(k, store(e.get(e.st, k), r, a))
+		e.setFresh(k, store(e.get(e.st, k), r, a))
 		e.flag("reslice-with-offset-copies")
 		e.setVal(x, fmt.Sprintf("(mkslice %s (- %s %s))", r, hi, lo))
 	case *types.Pointer: // pointer to array
@@ -722,7 +722,7 @@ func (e *Enc) slice(x *ssa.Slice) {
 			e.havocVal(x)
 			return
 		}
-		e.set(k, store(e.get(e.st, k), r, av))
+		e.setFresh(k, store(e.get(e.st, k), r, av))
 		e.setVal(x, fmt.Sprintf("(mkslice %s %s)", r, hi))
 	default:
 		e.havocVal(x)
